@@ -128,6 +128,20 @@ func (w *World) AddPeer(tip *chaingen.Node) *netsim.Peer {
 	return p
 }
 
+// AddPeerAt is AddPeer at a host:port chosen by the scenario (additive): IPv4
+// ("10.6.0.5:18444") or bracketed IPv6 ("[2001:db8:1:2::5]:18444", any
+// spelling). The peer is registered under the canonical spelling of the
+// address (what net.TCPAddr.String() prints: the form the client's dialer,
+// peer.Addr() and the event log use); an IPv4-mapped IPv6 spelling
+// ("[::ffff:10.6.0.5]:18444") therefore names the IPv4 host.
+func (w *World) AddPeerAt(addr string, tip *chaingen.Node) *netsim.Peer {
+	addr = netsim.TCPAddr(addr).String()
+	p := netsim.NewPeer(addr, w.G.P.Net, netsim.NewView(w.G, tip), w.Log)
+	w.Peers = append(w.Peers, p)
+	w.Net.Add(p)
+	return p
+}
+
 // AddLiar registers a peer that lies as specified.
 func (w *World) AddLiar(tip *chaingen.Node, lies ...netsim.Lie) *netsim.Peer {
 	p := w.AddPeer(tip)
